@@ -340,8 +340,182 @@ class ListArr(object):
     def __hash__(self):
         return id(self)
 
+    # ---- elementwise arithmetic (NumPy broadcasting of a scalar or an equally long array)
+    alias = "fresh"          # 'input': may share memory with the caller's raw data (purity tracking, C13)
+
+    def _zip(self, o, f, dtype="float64"):
+        if isinstance(o, ListArr):
+            if len(o.items) != len(self.items):
+                raise Unsupported("elementwise op on different lengths")
+            return ListArr([f(a, b) for a, b in zip(self.items, o.items)], dtype)
+        return ListArr([f(a, o) for a in self.items], dtype)
+
+    def __add__(self, o):
+        return self._zip(o, lambda a, b: a + b)
+
+    def __radd__(self, o):
+        return self._zip(o, lambda a, b: b + a)
+
+    def __sub__(self, o):
+        return self._zip(o, lambda a, b: a - b)
+
+    def __rsub__(self, o):
+        return self._zip(o, lambda a, b: b - a)
+
+    def __mul__(self, o):
+        return self._zip(o, lambda a, b: a * b)
+
+    def __rmul__(self, o):
+        return self._zip(o, lambda a, b: b * a)
+
+    def __truediv__(self, o):
+        return self._zip(o, lambda a, b: a / b)
+
+    def __rtruediv__(self, o):
+        return self._zip(o, lambda a, b: b / a)
+
+    def __neg__(self):
+        return ListArr([-a for a in self.items], self.dtype_)
+
+    def __pow__(self, o):
+        return self._zip(o, lambda a, b: a ** b)
+
+    def __ge__(self, o):
+        return self._zip(o, lambda a, b: a >= b, bool)
+
+    def __gt__(self, o):
+        return self._zip(o, lambda a, b: a > b, bool)
+
+    def __le__(self, o):
+        return self._zip(o, lambda a, b: a <= b, bool)
+
+    def __lt__(self, o):
+        return self._zip(o, lambda a, b: a < b, bool)
+
+    def astype(self, dt, copy=True):
+        r = ListArr(list(self.items), dt)
+        same = self.dtype_ is not None and np.dtype(dt) == self.dtype_
+        r.alias = self.alias if (not copy and same) else "fresh"
+        if not copy and not same and self.alias == "input":
+            r.alias = "fresh"
+        r.origin = self
+        return r
+
+    def copy(self):
+        return ListArr(list(self.items), self.dtype_)
+
+    def inplace(self, new_items):
+        st = sym.get_state()
+        if self.alias == "input" and st is not None:
+            st.ghost.setdefault("purity_violations", []).append("in-place update of the input array")
+        self.items = list(new_items)
+        return self
+
     def __repr__(self):
         return "ListArr(%r)" % (self.items,)
+
+
+def _listarr_binop(interp, opt, l, r, inplace):
+    import ast
+    if not inplace or not isinstance(l, ListArr):
+        return NotImplemented
+    ops = {ast.Add: lambda a, b: a + b, ast.Sub: lambda a, b: a - b, ast.Mult: lambda a, b: a * b,
+           ast.Div: lambda a, b: a / b}
+    if opt not in ops:
+        return NotImplemented
+    return l.inplace(l._zip(r, ops[opt]).items)
+
+
+def m_reciprocal(interp, x, out=None):
+    if isinstance(x, ListArr):
+        res = [1.0 / e for e in x.items]
+        if out is not None:
+            return out.inplace(res)
+        return ListArr(res, "float64")
+    return 1.0 / x
+
+
+def m_sqrt(interp, x, where=True, out=None):
+    """numpy.sqrt on reals: s >= 0 with s*s == x (where x >= 0); positions excluded by `where` are left
+    unspecified (fresh), as NumPy leaves them uninitialised"""
+    from .sym import SymReal, z3real
+    M.trusted("numpy.sqrt: the non-negative real root (elements masked out by where= are unspecified)")
+    st = sym.get_state()
+
+    def one(e, w):
+        if not is_sym(e):
+            import math
+            return math.sqrt(e)
+        s = st.fresh_real("sqrt")
+        cond = z3.And(s.e >= 0, s.e * s.e == z3real(e))
+        if isinstance(w, bool):
+            if w:
+                st.add_fact(z3.Implies(z3real(e) >= 0, cond))
+        else:
+            st.add_fact(z3.Implies(z3.And(sym.z3bool(w), z3real(e) >= 0), cond))
+        return s
+    if isinstance(x, ListArr):
+        ws = where.items if isinstance(where, ListArr) else [where] * len(x.items)
+        return ListArr([one(e, w) for e, w in zip(x.items, ws)], "float64")
+    return one(x, where)
+
+
+def m_np_all(interp, x):
+    if isinstance(x, ListArr):
+        return x.all()
+    return interp.truth(x) if not isinstance(x, (SymBool,)) else x
+
+
+def m_logical_not(interp, x):
+    if isinstance(x, ListArr):
+        return ListArr([sym_not(e) for e in x.items], bool)
+    return sym_not(x)
+
+
+def m_where(interp, cond):
+    """np.where(mask) -> (indices,) ; decided per element"""
+    if isinstance(cond, ListArr):
+        idx = [i for i, c in enumerate(cond.items) if interp.truth(c)]
+        return (idx,)
+    raise Unsupported("np.where")
+
+
+def m_diff(interp, x):
+    items = list(x.items) if isinstance(x, ListArr) else list(x)
+    return ListArr([b - a for a, b in zip(items, items[1:])], "float64")
+
+
+def m_flip(interp, x):
+    items = list(x.items) if isinstance(x, ListArr) else list(x)
+    return ListArr(items[::-1], getattr(x, "dtype_", None))
+
+
+def m_np_array(interp, x, dtype=None):
+    items = list(interp.iterate(x))
+    if any(is_sym(i) for i in items):
+        return ListArr(items, dtype or "float64")
+    return np.array(items, dtype=dtype)
+
+
+def m_interp(interp, x, xp, fp):
+    """numpy.interp over the reals: clamped piecewise-linear interpolation through (xp[i], fp[i]), xp increasing"""
+    M.trusted("numpy.interp(x, xp, fp): fp[0] left of xp[0], fp[-1] right of xp[-1], linear in between")
+    from .sym import SymReal, z3real
+    xs = list(xp.items) if isinstance(xp, ListArr) else list(xp)
+    fs = list(fp.items) if isinstance(fp, ListArr) else list(fp)
+
+    def one(v):
+        v = z3real(v)
+        res = z3real(fs[-1])
+        for i in range(len(xs) - 2, -1, -1):
+            x0, x1, f0, f1 = z3real(xs[i]), z3real(xs[i + 1]), z3real(fs[i]), z3real(fs[i + 1])
+            seg = f0 + (v - x0) * (f1 - f0) / (x1 - x0)
+            res = z3.If(v < x1, seg, res)
+        res = z3.If(v <= z3real(xs[0]), z3real(fs[0]), res)
+        return SymReal(res)
+    if isinstance(x, ListArr):
+        return ListArr([one(e) for e in x.items], "float64")
+    return one(x)
 
 
 def _listarr_getitem(interp, a, k):
@@ -714,6 +888,15 @@ def install(interp, m):
         "exp": lambda x: _unary_real(interp, "EXP", x, np.exp),
         "log": lambda x: _unary_real(interp, "LN", x, np.log),
         "square": lambda x: x * x,
+        "reciprocal": lambda *a, **k: m_reciprocal(interp, *a, **k),
+        "sqrt": lambda *a, **k: m_sqrt(interp, *a, **k),
+        "all": lambda x: m_np_all(interp, x),
+        "logical_not": lambda x: m_logical_not(interp, x),
+        "where": lambda x: m_where(interp, x),
+        "diff": lambda x: m_diff(interp, x),
+        "flip": lambda x: m_flip(interp, x),
+        "array": lambda *a, **k: m_np_array(interp, *a, **k),
+        "interp": lambda *a, **k: m_interp(interp, *a, **k),
     }
     from . import timemodel
     timemodel.install(interp, table)
@@ -729,6 +912,7 @@ def install(interp, m):
     m[("instantiate", np.ndarray)] = _instantiate_ndarray_subclass
     m[("isinstance_cls", "nptdms.timestamp:TimestampArray")] = lambda interp, v: isinstance(v, TsArr)
     m[("setitem", ListArr)] = _listarr_setitem
+    m[("binop", ListArr)] = _listarr_binop
     m[("getitem", BufView)] = _bufview_getitem
     m[("setattr", FileArr, "dtype")] = _filearr_set_dtype
     m[("setattr", BufView, "dtype")] = _bufview_setattr_dtype
